@@ -346,21 +346,47 @@ def _promoted_variant(fn, operand, adt):
 def reach_under_variant(prog, fn, adt, variant, start=0):
     """Blocks reachable from `start` when every value of enum type `adt` inspected by the function is
     `variant`: switches on Discriminant(place: adt) follow that arm only; bool switches on
-    PartialEq::eq/ne(&place: adt, &CONST_VARIANT) are decided; everything else follows all edges."""
+    PartialEq::eq/ne(&place: adt, &CONST_VARIANT) are decided; bool temporaries assigned constants on
+    the explored path (the shape `matches!` compiles to) and their negations are tracked, so the
+    exploration is path-sensitive in those booleans; everything else follows all edges."""
     res = Resolver(fn)
+    seen_states = set()
     seen = set()
-    st = [start]
+    st = [(start, frozenset())]
     while st:
-        b = st.pop()
-        if b in seen:
+        b, env = st.pop()
+        if (b, env) in seen_states:
             continue
+        seen_states.add((b, env))
         seen.add(b)
+        envd = dict(env)
+        for stm in fn.stmts(b):
+            if stm["k"] != "assign" or proj(stm["p"]):
+                continue
+            l = stm["p"]["l"]
+            rv = stm["rv"]
+            envd.pop(l, None)
+            if rv["k"] == "use" and is_const(rv["a"]) and rv["a"]["c"].get("ty") == "bool" and rv["a"]["c"].get("v") in (0, 1):
+                envd[l] = rv["a"]["c"]["v"]
+            elif rv["k"] == "use" and is_place(rv["a"]) and not proj(rv["a"]) and rv["a"]["l"] in envd:
+                envd[l] = envd[rv["a"]["l"]]
+            elif rv["k"] == "un" and rv["op"] == "Not" and is_place(rv["a"]) and not proj(rv["a"]) and rv["a"]["l"] in envd:
+                envd[l] = 1 - envd[rv["a"]["l"]]
         t = fn.term(b)
         succs = fn.succs(b)
+        if t["k"] == "call" and not proj(t["dest"]):
+            envd.pop(t["dest"]["l"], None)
         if t["k"] == "switch" and is_place(t["d"]) and not proj(t["d"]):
-            d = fn.single_def(t["d"]["l"])
+            dl = t["d"]["l"]
             decided = None
-            if d and d[2] == "assign" and d[3]["k"] == "discr" and d[3].get("adt") == adt:
+            if dl in envd and t.get("dty") == "bool":
+                tgt = None
+                for val, tb in t["ts"]:
+                    if val == envd[dl]:
+                        tgt = tb
+                decided = [tgt if tgt is not None else t["o"]]
+            d = fn.single_def(dl)
+            if decided is None and d and d[2] == "assign" and d[3]["k"] == "discr" and d[3].get("adt") == adt:
                 vs = prog.enum_variants(adt)
                 want = [k for k, v in vs.items() if v == variant]
                 tgt = None
@@ -368,7 +394,7 @@ def reach_under_variant(prog, fn, adt, variant, start=0):
                     if want and val == want[0]:
                         tgt = tb
                 decided = [tgt if tgt is not None else t["o"]]
-            elif d and d[2] == "call":
+            elif decided is None and d and d[2] == "call":
                 ct = d[3]
                 cn = callee_written(ct) or ""
                 if cn in ("core::cmp::PartialEq::ne", "core::cmp::PartialEq::eq") and len(ct["args"]) == 2:
@@ -392,5 +418,7 @@ def reach_under_variant(prog, fn, adt, variant, start=0):
                             decided = [tgt if tgt is not None else t["o"]]
             if decided is not None:
                 succs = decided
-        st.extend(succs)
+        nenv = frozenset(envd.items())
+        for s_ in succs:
+            st.append((s_, nenv))
     return seen
